@@ -181,8 +181,8 @@ CHECKS["C09"] = {
             "the dimensions agree; nothing else returns; the copying form leaves its input untouched, a refused in-place request "
             "leaves it as it was. Bounded only: the value law of lorentz (the subtraction contract gives no exact law when the "
             "pure-number unit of an intermediate result is within 1e-9 of 1), effective_temperature (np.power has no contract), "
-            "the spellings to(.., equivalence=) / in_units(.., equivalence=) / convert_to_units(.., equivalence=) (one more "
-            "forwarding step) and floating-point residuals: driver over all 9 equivalences x 32 directions x units x parameters "
+            "to_value(.., equivalence=) and floating-point residuals (the spellings to(.., equivalence=), in_units(.., equivalence=) "
+            "and convert_to_units(.., equivalence=) are proved like the entry points they forward to): driver over all 9 equivalences x 32 directions x units x parameters "
             "x 9 call forms",
     "note": TRUST + "; unyt.physical_constants.<X> are symbolic positive quantities of the right dimension (their values are "
             "C15's business); machine integers are mathematical (unsigned wrap-around in a formula is invisible to the "
